@@ -20,6 +20,9 @@ def main():
     if args.prop in ("C02", "C03", "C15", "C16", "C19"):
         from checks.e2check import E2Check
         sys.exit(E2Check(args.prop, args.tier, seed, "").run())
+    if args.prop == "C01":
+        from checks import c01
+        sys.exit(c01.run(args.tier, seed))
     if args.prop == "C17":
         from checks import c17
         sys.exit(c17.run(args.tier, seed))
